@@ -287,7 +287,10 @@ def h_wf_padding(c):
     length k (RFC 9000 19.1 makes each 0x00 a frame; the parser merges the run - same bytes accounted)."""
     k = c.int("k", 1, None)
     rest = c.bytes("rest")
-    c.assume((len_(rest) == 0) | (rest[0] != 0))
+    if c.native:
+        c.assume(len(rest) == 0 or rest[0] != 0)
+    else:
+        c.assume((len_(rest) == 0) | (rest[0] != 0))
     payload = cat(c.fill(0, k), rest)
     c.loop(QF + ".PaddingFrame.__init__", "for i, byte in enumerate(payload)", invariant=lambda e: e.it <= k)
     out = c.new(QF + ".PaddingFrame", payload, c.opaque("src_packet"))
